@@ -128,6 +128,9 @@ def sanitizer_keys(text):
         m = re.search(r"ERROR: libFuzzer: (\S+)", ln)
         if m:
             keys.append("fuzz:%s" % m.group(1))
+    # an abort raised by UBSan/assert is also seen by ASan's SIGABRT handler: keep the real report only
+    if any(not k.startswith("asan:ABRT") for k in keys):
+        keys = [k for k in keys if not k.startswith("asan:ABRT")]
     # de-duplicate preserving order
     seen, out = set(), []
     for k in keys:
